@@ -196,3 +196,9 @@ package sm2
 //@ func sm2.DerivePublic#eff
 //@ func sm2.TestPrivateKey#eff
 //@ func sm2.CheckOnCurve#eff
+
+//@ func sm2.SignZa#ct
+//@ secret priv
+
+//@ func sm2.Sign#ct
+//@ secret priv
